@@ -8,7 +8,7 @@ import time
 
 sys.path.insert(0, os.path.dirname(os.path.abspath(__file__)))
 import vlib
-from engines import hs_server, hs_client, tcp_stream, codec, pending, srvlife, mux, chan, clientlife
+from engines import hs_server, hs_client, tcp_stream, codec, pending, srvlife, mux, chan, clientlife, blocking
 
 # property -> list of (engine module, operator prefixes that decide it)
 PROPS = {
@@ -31,9 +31,15 @@ PROPS = {
     "C19": [(clientlife, ["C19_"])],
     "C20": [(mux, ["C20_"])],
     "C16": [(tcp_stream.C16, ["C16_"])],
+    "C15": [(blocking, ["C15_"])],
 }
 
 ASSUME = {
+    "blocking": [
+        "TLC checks the wait automaton of every operation x transport x deadline/cancel x moment against the bound the property states; each case is then timed on the real operation against a peer that makes no progress (silent, or not reading with full buffers)",
+        "latencies are wall-clock: a slack of 1 s absorbs scheduling noise (the violations at stake are whole poll intervals or hangs); a call not back 4 s after its bound is recorded as hanging; encoding time of a large envelope is kept out of the measure by ending the context after the writer is parked",
+        "TLC, CommunityModules Json, the Go runtime, crypto/tls and gorilla/websocket are trusted",
+    ],
     "client-life": [
         "TLC checks ClientLife exhaustively (7 fault kinds, up to 2-4 faults) including the liveness property Recovers under weak fairness of the listener's steps",
         "the scripted server accepts throughout the 3 s observation window (reachable server); a listener is said to spin above 1000 iterations per second; TCP transport with a 4 KiB read limit",
